@@ -25,6 +25,7 @@ esac
 FLAGS="$SAN -DBLOC_VERIF"
 
 srchash() {
+  [ -d "$1" ] || { echo none; return; }
   ( cd "$1" && find . \( -path ./_build -o -path ./.git \) -prune -o -type f -print0 | LC_ALL=C sort -z | xargs -0 sha1sum ) | sha1sum | cut -d' ' -f1
 }
 KEY="$(srchash "$REPO") $(srchash "$VERIF/harness") $(srchash "$VERIF/vmod") $CC $FLAGS v3"
